@@ -32,6 +32,15 @@ impl SignatureConverter<'_> {
                 }
                 syn::FnArg::Typed(pat_type) => {
                     pat_type.attrs = vec![];
+
+                    // A trait method declaration only admits plain identifier patterns:
+                    // the binding mode (`mut`, `ref`) and a subpattern (`a @ ..`) belong
+                    // to the original function only.
+                    if let syn::Pat::Ident(pat_ident) = pat_type.pat.as_mut() {
+                        pat_ident.by_ref = None;
+                        pat_ident.mutability = None;
+                        pat_ident.subpat = None;
+                    }
                 }
             }
         }
